@@ -899,3 +899,29 @@ def quiet_histories(rng, n):
 
 def describe(op):
     return OPNAME[op[0]] + str(op[1:])
+
+
+def main(argv):
+    """python -m harness.store_hist <replay.json>: re-run the concrete history of a C02 / C04 replay file
+    (backend, wire_ops, universe, layer, object_reuse) on a fresh back end of the tree VERIF_REPO / PYTHONPATH
+    points at, and print every op with its result and the dump of every bucket after it."""
+    import json
+    r = json.load(open(argv[0]))
+    r = r.get("replay", r)
+    common.setup_impl_env()
+    steps = replay_run(r["backend"], r["wire_ops"], r["universe"], r.get("layer", "storage"), r.get("object_reuse"))
+    prev = None
+    for j, (op, st) in enumerate(zip(r["wire_ops"], steps)):
+        reuse = (r.get("object_reuse") or [None] * (j + 1))[j]
+        print(f"op {j}: {describe(op)}" + (f"  [same object as {reuse}]" if reuse else "") + f" -> {st[0]}")
+        for b, v, pv in zip(r["universe"], st[1:], prev or [None] * len(st[1:])):
+            tgt = None if op[0] == 3 else op[1]
+            mark = "   <-- changed by an op addressed to another bucket" if prev is not None and b != tgt and v != pv else ""
+            print(f"    bucket {b}: {v}{mark}")
+        prev = st[1:]
+    return 0
+
+
+if __name__ == "__main__":
+    import sys
+    sys.exit(main(sys.argv[1:]))
